@@ -38,6 +38,17 @@ SIMPLE2 = {'kind': 'simple', 'patterns': [r'^\S+ \S+ (\w+)'], 'tag': 's1',
            'hint': None, 'store': True, 'constraints': [0]}
 
 
+# two overlapping patterns: which one matches a line must not depend on
+# earlier lines / runs
+MULTI = {'kind': 'simple', 'tag': 's2', 'hint': None, 'store': True,
+         'constraints': [],
+         'patterns': [r'^\S+ \S+ (\w+) (\d+) alpha', r'^\S+ \S+ (\w+)']}
+# a per-search constraint on a search that matches ANY line (undated header
+# lines included)
+ANYLINE = {'kind': 'simple', 'tag': 's3', 'hint': None, 'store': True,
+           'constraints': [0], 'patterns': [r'(.*)']}
+
+
 def ts(day, h, m=0, s=0):
     return f"2022-01-{day:02d} {h:02d}:{m:02d}:{s:02d}"
 
@@ -68,13 +79,14 @@ def file_pool(rng):
         + b"\xff\xfe broken\n" + f"{ts(11, 2)} end 4\n".encode(),
         'undated.log': b"no dates here\nstart 5\nbody e\nend 5\n",
         'empty.log': b'',
+        'oldheader.log': b"=== log opened ===\n" + log([9, 10]) + log([11]),
     }
 
 
 def run_of(rng, paths, use_global, new_searcher=True, policy=None,
            ndefs=None, mpt=None):
     adds = []
-    defs = list(range(4)) if ndefs is None else ndefs
+    defs = list(range(6)) if ndefs is None else ndefs
     for p in paths:
         for d in defs:
             adds.append([d, p, True])
@@ -149,6 +161,19 @@ def histories(rng, n):
                   run_of(rng, ['normal.log'], True),
                   dict(run_of(rng, ['recent.log', 'normal.log'], True),
                        **{'global': 1})]),
+        ('restricted-then-unrestricted-reuse',
+         # a definition registered with allow_global_constraints=False in
+         # one searcher and normally in the next
+         lambda: [dict(run_of(rng, ['normal.log'], True),
+                       adds=[[d_, 'normal.log', d_ != 2] for d_ in range(6)]),
+                  run_of(rng, ['normal.log'], True),
+                  run_of(rng, ['normal.log', 'recent.log'], True)]),
+        ('header-line-after-passing-run',
+         # a run in which the per-search constraint passed, then a file that
+         # begins with an undated header followed by old lines
+         lambda: [run_of(rng, ['recent.log'], False),
+                  run_of(rng, ['oldheader.log'], False),
+                  run_of(rng, ['oldheader.log'], False, False)]),
         ('undated-cached',
          lambda: [run_of(rng, ['undated.log'], True),
                   run_of(rng, ['undated.log'], True, False)]),
@@ -198,7 +223,7 @@ def run(chk):
             # a second, DIFFERENT constraint object with an earlier boundary
             {'current': '2022-01-12 00:00:00', 'days': 2, 'hours': 0}]
     since = G.since_secs(cons[0])
-    defs = [SEQ_END, SEQ_NOEND, SIMPLE, SIMPLE2]
+    defs = [SEQ_END, SEQ_NOEND, SIMPLE, SIMPLE2, MULTI, ANYLINE]
     jobs = []
     try:
         for idx, (name, runs) in enumerate(histories(chk.rng, n)):
@@ -289,7 +314,8 @@ def run(chk):
                             want.append(None)
                             continue
                     p = paths[0]
-                    g = r['global'] is not None
+                    g = r['global'] is not None and \
+                        all(a[2] for a in r['adds'] if a[1] == p)
                     # the cache is per (constraint object, path)
                     key = ids[p] + len(ids) * (r['global'] or 0)
                     steps.append(f"Single {'true' if g else 'false'} "
